@@ -97,6 +97,11 @@ fn den(c: &C, probes: &[FV]) -> u64 {
     m
 }
 
+/// Reference membership of a single value (used by the pruning adapter of C04).
+pub fn cand_contains(c: &C, v: &FV) -> bool {
+    den(c, std::slice::from_ref(v)) == 1
+}
+
 fn canon(c: &C) -> String {
     format!("{c:?}")
 }
